@@ -15,7 +15,7 @@ EXPLANATION = (
     'functions, same constants, same base".')
 ASSUMPTIONS = ['os.path.join keeps an absolute second argument (so only V matters for '
                'relative Paths)']
-MINIMUM = {'R20.1': 6, 'R20.2': 3, 'R20.3': 8}
+MINIMUM = {'R20.1': 6, 'R20.2': 3, 'R20.3': 8, 'R20.4': 4, 'R20.5': 2}
 
 
 def dir_kind(D):
@@ -67,6 +67,21 @@ def base_class(V, D):
     return ' | '.join(sorted(out))
 
 
+def content_shape(t):
+    """Canonical text of the chain open(<path>, mode...).read()... with the path
+    abstracted away."""
+    t = strip(t)
+    if isinstance(t, MCall):
+        return '%s.%s(%s)' % (content_shape(t.recv), t.name, ', '.join(
+            [short(a, 30) for a in t.args] + ['%s=%s' % (k, short(v, 30)) for k, v in t.kwargs]))
+    if isinstance(t, Call) and t.fn in ('open', 'io.open', 'codecs.open'):
+        return '%s(<path>%s)' % (t.fn, ''.join(', ' + short(a, 30) for a in t.args[1:]) +
+                                 ''.join(', %s=%s' % (k, short(v, 30)) for k, v in t.kwargs))
+    if isinstance(t, Call):
+        return '%s(%s)' % (t.fn, ', '.join(content_shape(a) for a in t.args))
+    return short(t, 40)
+
+
 def check(ctx):
     loc_funcs = {}
     date_funcs = {}
@@ -84,6 +99,12 @@ def check(ctx):
                    node=node, message='%s: the %s is %s, not join(base, decoded Path)'
                                       % (cmd, what, short(term, 100)))
             for V, P, j in ljs:
+                exact = all(is_call(strip(a), *UNQUOTERS) for a in flat(P))
+                ctx.ob('R20.2', '%s %s joins the parser\'s value unchanged' % (cmd, what), exact,
+                       node=node,
+                       message='%s: the %s transforms the decoded Path (%s) before joining it '
+                               'to the base; the sibling readers do not'
+                               % (cmd, what, short(P, 100)))
                 for o in [y for y in walk(P) if isinstance(y, Call) and y.fn == 'open']:
                     for ia in flat(o.args[0]):
                         D = info_entry(ia)
@@ -98,6 +119,51 @@ def check(ctx):
                     continue
                 f = b.g.n(sp.node).func if sp.node is not None else '?'
                 date_funcs.setdefault(f, set()).add('%s %s' % (cmd, what))
+    # R20.4: every reader obtains the text of a .trashinfo the same way
+    shapes = {}
+    for cmd in ('list', 'rm', 'restore', 'empty'):
+        b = ctx.graph(cmd)
+        for n in b.nodes('mcall'):
+            if n.data['name'] != 'split' or not n.data['args'] or \
+                    not is_const(strip(n.data['args'][0]), '\n'):
+                continue
+            for a in flat(n.data['recv']):
+                if not contains(a, lambda x: isinstance(x, Call) and x.fn in ('open', 'io.open')):
+                    continue
+                shapes.setdefault(content_shape(a), set()).add(cmd)
+    ctx.ob('R20.4', 'all readers obtain the content of a .trashinfo the same way (same open '
+                    'mode, same decoding, same newline handling)', len(shapes) == 1,
+           construct='content acquisition', text='; '.join(sorted(shapes)),
+           message='the text handed to the parsers is produced differently: %s -- e.g. a '
+                   'binary read plus decode() keeps "\\r" that the text-mode readers '
+                   'translate away' % {k: sorted(v) for k, v in shapes.items()})
+    for k, v in shapes.items():
+        for cmd in sorted(v):
+            ctx.ob('R20.4', '%s reads through %s' % (cmd, k), True, construct=k, text=cmd)
+    # the value of the first DeletionDate line is kept by the same code in all readers
+    keepers = {}
+    for cmd in ('list', 'restore', 'empty'):
+        b = ctx.graph(cmd)
+        for n in b.nodes('store'):
+            v = n.data.get('value')
+            if v is None:
+                continue
+            fl = flat(v)
+            direct = [a for a in fl if is_call(a, *STRPTIME) and not contains(
+                a, lambda x: is_const(x, 'TRASH_DATE'))]
+            if direct and all(is_call(a, *STRPTIME) or isinstance(a, Const) for a in fl):
+                keepers.setdefault(cmd, set()).add(n.func)
+    allk = set()
+    for v in keepers.values():
+        allk |= v
+    same_keeper = all(v == allk for v in keepers.values()) and len(keepers) >= 2
+    ctx.ob('R20.1', 'the parsed date is kept by the same collector in list, restore and empty',
+           same_keeper, construct='DeletionDate collector', text=str(sorted(allk)),
+           message='the readers keep the parsed DeletionDate through different code: %s -- '
+                   'with duplicate DeletionDate lines they disagree on which one counts'
+                   % {k: sorted(v) for k, v in keepers.items()})
+    from .c03 import first_match_rules
+    first_match_rules(ctx, 'R20.5')
     ctx.ob('R20.1', 'one Path parser feeds every use of an original location',
            len(loc_funcs) == 1, construct='parse_trashinfo', text='Path parsers',
            message='original locations are decoded in %d different functions: %s'
